@@ -2,6 +2,8 @@
    Property theorems only. *)
 From Coq Require Import List NArith.
 From FP Require Import Model.Base Model.Rdh Model.RdhChecks Spec.RdhRules Proofs.RdhFacts Proofs.C10_proofs Model.CdpRunning Model.Scanner Model.Link Proofs.C10_run.
+From FP Require Import Model.Collector Model.System Spec.Framing Spec.GroundTruth Proofs.C03_proofs Proofs.C14_proofs Proofs.C10_whole.
+From FP Require Gen.Facts.
 Import ListNotations.
 Open Scope N_scope.
 
@@ -40,8 +42,27 @@ Theorem C10_sanity_pass_exact : forall custom h0 hs, Forall (fun h => rdh_bytes_
     Forall2 (fun h ms => (violates first h = false /\ ms = []) \/ (violates first h = true /\ exists m, ms = [m] /\ is_e10_at (hp_off h) m)) (h0 :: hs) per.
 Proof. exact c10_pass. Qed.
 
+(* ONE WHOLE `check sanity` RUN (no target; payloads skipped) on a well-framed input of any number of links interleaved in any way, under any
+   filter and display option: in the state the run ends with (report, statistics file) an RDH of the input that passed the filter carries
+   an [E10] at its offset IF AND ONLY IF it violates a documented sanity condition relative to the header id of the first RDH of ITS
+   LINK (or the configured version) -- scanner, dispatcher, the link's validator thread and the collector composed *)
+Theorem C10_whole_run_sanity : forall c pkts custom ff s shown e id op0 rest,
+  Forall wf_pkt pkts -> N.of_nat (length pkts) < U32_MAX -> pay_all pkts < U32_MAX ->
+  (forall p r, pkts = p :: r -> known_sysid (r_system_id (hdr p)) = true) ->
+  sc_skip (rc_scan c) = true -> rc_check c = sanity_cfg custom ->
+  run_check ff c (serialize pkts) = R_done s shown e -> link_ops c pkts id = op0 :: rest ->
+  let first := match custom with Some v => v | None => h_header_id (p_hdr (snd op0)) end in
+  forall op, In op (link_ops c pkts id) ->
+    ((exists m, In m (k_errors s) /\ m_off m = fst op /\ m_body m = 10) <-> rdh_sane first false (p_hdr (snd op)) = false).
+Proof.
+  exact (fun c pkts custom ff s shown e id op0 rest H1 H2 H3 H4 H5 H6 =>
+           c10_whole_run c pkts custom (eq_refl : Gen.Facts.cdp_offset_sampled_after = true) (eq_refl : Gen.Facts.error_sort_when_muted = true)
+                         H1 H2 H3 H4 H5 H6 ff s shown e id op0 rest).
+Qed.
+
 Print Assumptions C10_sanity_iff.
 Print Assumptions C10_sanity_first.
 Print Assumptions C10_sanity_latch_stable.
 Print Assumptions C10_running_iff.
 Print Assumptions C10_sanity_pass_exact.
+Print Assumptions C10_whole_run_sanity.
